@@ -365,6 +365,17 @@ func (l *lexer) unread() {
 	l.r.UnreadRune()
 }
 
+// set assigns value to the variable named by the name, unless an error
+// has already been reported.
+func (l *lexer) set(name, value string) {
+	l.mu.Lock()
+	defer l.mu.Unlock()
+
+	if l.err == nil {
+		l.env.Set(name, value)
+	}
+}
+
 func (l *lexer) Error(s string) {
 	l.mu.Lock()
 	defer l.mu.Unlock()
